@@ -230,7 +230,7 @@ def _c12_vm_sample(d, tier, coq, build):
 
 CONFIG = {
     "properties_file": "Properties/C12.v",
-    "proof_files": ["Base/Prelude.v", "Proofs/TarRoundTrip.v", "Proofs/TarWalkOrder.v", "Proofs/TarListingOrder.v", "Proofs/TarModeSweep.v", "Proofs/TarRootMode.v", "Proofs/TarUnprivileged.v", "Proofs/TarSourceFacts.v", "Proofs/TarSetgid.v"],
+    "proof_files": ["Base/Prelude.v", "Proofs/TarRoundTrip.v", "Proofs/TarWalkOrder.v", "Proofs/TarListingOrder.v", "Proofs/TarModeSweep.v", "Proofs/TarRootMode.v", "Proofs/TarUnprivileged.v", "Proofs/TarSourceFacts.v", "Proofs/TarSetgid.v", "Proofs/TarRestoreOrder.v"],
     "model_files": ["Generated/GC12.v", "Model/TarRoundTrip.v", "Model/FileAnnotations.v"],
     "extract": "XC12.v",
     "ml_main": "c12_main.ml",
@@ -242,7 +242,7 @@ CONFIG = {
     "assumptions": [
         "archive/tar and compress/gzip byte encodings are Section variables enc/dec/gz/gunz with the hypotheses dec (enc es) = Some es and gunz (gz s) = Some s; the digest is a Section variable H with a decidable equality (no collision-freeness is needed: the reproducibility theorem concludes equality of entry lists, hence of bytes and digests)",
         "paths are lists of components; filepath.Join/Clean/Rel/ToSlash on the clean relative names that tarDirectory produces = list append / strip_prefix / lexnorm_aux on a stack that starts with the added name (a target may leave the directory and come back through its own name; climbing above the working directory counts as outside, the absolute path of the working directory is not in the model); hand-modelled, compared with the implementation on every generated tree",
-        "filepath.Walk = pre-order with byte-wise sorted children (sort_tree); os.MkdirAll/Mkdir/OpenFile/Symlink/Remove/Chmod/umask = mkdir_all/fs_set/has_children/create_mode/chmod_mode/narrow_mode on a path->node map, mkdir(2)'s set-group-ID inheritance = inherited_sgid (kernel semantics modelled, Linux). Kernel PERMISSION CHECKS: modelled for the creation/replacement/removal of an entry by an unprivileged owner (perm_ok: write+search on the nearest existing directory; C12_unprivileged_same_as_root), compared with a re-run of a part of the harness as uid 65534 (read-only directories, umasks that take the owner's own permissions away); NOT modelled: the write bit needed to truncate an existing file, search permission on the ancestors for chmod in restoreDirModes (its deepest-first order matters only there), an unprivileged writer's write(2) clearing setuid/setgid of a non-empty file (not generated for uid 65534), and the creation of the directories ABOVE the base by pushDir (single-component names under owner-bit umasks)",
+        "filepath.Walk = pre-order with byte-wise sorted children (sort_tree); os.MkdirAll/Mkdir/OpenFile/Symlink/Remove/Chmod/umask = mkdir_all/fs_set/has_children/create_mode/chmod_mode/narrow_mode on a path->node map, mkdir(2)'s set-group-ID inheritance = inherited_sgid (kernel semantics modelled, Linux). Kernel PERMISSION CHECKS: modelled for the creation/replacement/removal of an entry by an unprivileged owner (perm_ok: write+search on the nearest existing directory; C12_unprivileged_same_as_root) and for every chmod of restoreDirModes in its real deepest-first order (ancestors_x: search permission on every directory above; extract_po, C12_extract_po_ok, C12_shallow_first_refuted), compared with a re-run of a part of the harness as uid 65534 (read-only directories, umasks that take the owner's own permissions away); NOT modelled: the write bit needed to truncate an existing file, an unprivileged writer's write(2) clearing setuid/setgid of a non-empty file (not generated for uid 65534), and the creation of the directories ABOVE the base by pushDir (single-component names under owner-bit umasks)",
         "hypotheses of the round-trip theorems: distinct names per directory (wf_treeb; it does not forbid component names such as '..' or 'a/b' that no file system has -- the theorems are then about trees wider than real ones), modes within 07777 for files AND directories, umask within 0777 when PreservePermissions is off (kernel), symlink targets relative, inside the directory and not passing through another symlink of the tree (benign_tree pre T; a target may pass through a regular file or an over-long name since the fix of resolveRelToBase). What benign_tree excludes: (i) links leaving the directory are refused by extractTarDirectory by design (outside the property: generated, compared with the model, not judged); (ii) links staying inside but passing through another link (or themselves) are refused depending on the extraction order: judged, known finding link-through-link-rejected with the refuted witness C12_link_through_link_refuted; whenever a restore succeeds the oracle compares the trees whatever the links look like",
         "a plain file travels as a bare blob: its bytes and name come back, its mode does not (0666 minus umask): theorem C12_file_roundtrip says exactly that, the oracle reports every such case as known finding plain-file-mode-not-carried; with SkipUnpack a directory is by the option's definition restored as its gzip blob under the name (C12_skipunpack_stores_blob, oracle: bytes = descriptor digest), the tree clause does not apply",
         "each added name is restored into its own fresh directory: the round-trip theorem is per item; names of one scenario are relative and not nested in each other (also unclean: './x', 'x/', 'x//y'); pre-populated destination or intermediate stores, fifos/devices (Add archives them, extraction skips them) and directory-typed same-bytes duplicates (cannot arise from Add: the name is the tar prefix) are not exercised; a setgid destination working directory is modelled (inherited_sgid), proved (C12_extract_list_setgid, C12_roundtrip_setgid) and exercised (XG cases; the RUN directory itself must not be setgid)",
@@ -251,7 +251,7 @@ CONFIG = {
         "sizes above ~2.5 MiB, xattrs, times of restored files and NAME_MAX < 220 file systems are not exercised; the remote intermediate store is registry/remote.Repository against an in-memory registry of the harness over loopback HTTP (monolithic uploads only); hard links are exercised (Add treats them as regular files); the second copy of every reproducibility pair is chown-ed to other uids/gids",
     ],
     "level_text": "Coq theorems for all directory trees (any nesting, names, contents, child order, any umask within 0777, both PreservePermissions settings): extractTarDirectory applied to the entry list written by tarDirectory never fails and yields exactly the source tree as a path->node map -- the directory itself included (same paths, bytes, link targets, modes minus umask or exact, nothing else), proved by tree induction with a frame invariant plus a finite sweep for the base directory's mode; invariance under filepath.Walk's sorting and under the listing order of every directory; descriptor digest/size/recorded tar digest and their verification on unpack; plain files; reproducible tars depend only on the tree without timestamps; after any subset/order of layer pushes covering every content, the manifest push materialises every name (restoreDuplicates, also with IgnoreNoName), not under ForceCAS; the three pre-fix behaviours found by this check are kept as refuted theorems about *_prefix models. Tied to content/file by a differential run Add -> PackManifest -> Copy -> memory / OCI layout / remote repository -> Copy -> second file store on generated trees (decoded tar headers, restored listings, descriptor equality, pushed/materialised names, tampered descriptors, re-ordered foreign archives), an exhaustive small scope, the state left on disk by failed pushes, an unprivileged re-run, exhaustive entry-order permutations of small archives, an independent oracle on the generator's own tree and an in-Coq vm_compute re-evaluation of sampled cases",
-    "level_note": "full at entry-list level for benign trees, for root and for an unprivileged owner; tar/gzip bytes, the digest, filepath.Walk and the kernel file system are modelled, not verified (permission checks: creation of entries only); the literals 0700/0777 and 19 statement shapes of the mirrored Go functions are regenerated by the translator and checked by proof on every run; seven defects found by the check are fixed in the repository (IgnoreNoName dropped same-content files; PreservePermissions lost setuid/setgid/sticky; the directory's own mode was lost; a symlinked root was archived as a link; read-only directories could not be restored by an unprivileged user and setuid/setgid directories lost their bits; dangling links through a regular file or an over-long name were refused), their pre-fix models are kept as refuted theorems; two known findings remain, each with a refuted witness in Coq, and are reported on every run: link-through-link-rejected (order-dependent refusal of inside links that pass through another link), plain-file-mode-not-carried (a blob has no mode); oracle-only clauses: transport through other stores, descriptor of the stored bytes",
+    "level_note": "full at entry-list level for benign trees, for root and for an unprivileged owner (creation of entries and the ordered chmods of restoreDirModes); tar/gzip bytes, the digest, filepath.Walk and the kernel file system are modelled, not verified (permission checks: creation of entries and restoreDirModes' chmods; not: truncating an existing read-only file); the literals 0700/0777 and 19 statement shapes of the mirrored Go functions are regenerated by the translator and checked by proof on every run; seven defects found by the check are fixed in the repository (IgnoreNoName dropped same-content files; PreservePermissions lost setuid/setgid/sticky; the directory's own mode was lost; a symlinked root was archived as a link; read-only directories could not be restored by an unprivileged user and setuid/setgid directories lost their bits; dangling links through a regular file or an over-long name were refused), their pre-fix models are kept as refuted theorems; two known findings remain, each with a refuted witness in Coq, and are reported on every run: link-through-link-rejected (order-dependent refusal of inside links that pass through another link), plain-file-mode-not-carried (a blob has no mode); oracle-only clauses: transport through other stores, descriptor of the stored bytes",
     "technique": "machine-checked proof in Coq (tree induction, frame invariant over a path->node map, permutation invariance, induction over push sequences) + translator-regenerated annotation keys + model/implementation correspondence + independent oracle",
     "explanation": "theorems over all trees/umasks/options about the model of tarDirectory/descriptorFromDir/pushDir/extractTarDirectory/restoreDuplicates; the extracted model and the real file store are run on the same generated scenarios (every intermediate store x SkipUnpack x ForceCAS x IgnoreNoName combination in every run) and their tar entry lists, restored listings, descriptor-equality verdicts, materialised names, unpack verdicts and extractions of re-ordered archives are diffed; the oracle compares source and restored trees directly (via Copy and via a direct Push) and separates restore-failed-* from restored-differently signatures; a sample of the cases is re-evaluated inside Coq with vm_compute (post_model hook)",
 }
